@@ -19,6 +19,7 @@ from __future__ import annotations
 import collections
 import hashlib
 import json
+import os
 import random
 
 import numpy as np
@@ -62,6 +63,7 @@ def run_case(prog, style: str, rseed: int, bindings, specs=None, use_reference=F
     rng = random.Random(rseed)
     import warnings
 
+    j_stage("construct")
     try:
         with warnings.catch_warnings():
             warnings.simplefilter("ignore")
@@ -82,18 +84,21 @@ def run_case(prog, style: str, rseed: int, bindings, specs=None, use_reference=F
                 return out
         except Exception:  # noqa: BLE001 - cannot tell: judge the case with concrete declarations instead
             return run_case(prog, style, rseed, bindings, specs, use_reference, "concrete")
+    j_stage("build")
     try:
         model, log = L.build_model(R)
     except Exception as e:  # noqa: BLE001
         out["fail"] = (classify_raise(prog, "build", e), f"spox.build raised {type(e).__name__}: {str(e)[:200]}")
         return out
     out["model"] = model
+    j_stage("extract")
     try:
         em, problems = L.extract_emission(prog, model)
     except Exception as e:  # noqa: BLE001 - extraction trouble is a broken tie, never a verdict
         em, problems = None, [f"extraction crashed: {type(e).__name__}: {e}"]
     out["emission"], out["problems"] = em, problems
     # --- model-free oracle
+    j_stage("runtime")
     if specs is None:
         specs = []
         for b in bindings:
@@ -224,6 +229,7 @@ def run_history(prog, style: str, rseed: int, bindings, n_builds: int = 3):
         inputs = {name_of[a]: R.vars[(a, 0)] for a in ikeys}
         outputs = {nm: R.vars[r] for nm, r in zip(out_names, refs)}
         tag = f"build #{step} of a history over the same objects ({kind}, inputs {scheme})"
+        j_stage("build")
         try:
             with warnings.catch_warnings():
                 warnings.simplefilter("ignore")
@@ -231,6 +237,7 @@ def run_history(prog, style: str, rseed: int, bindings, n_builds: int = 3):
         except Exception as e:  # noqa: BLE001
             return (classify_raise(prog, "build", e), f"{tag}: spox.build raised {type(e).__name__}: {str(e)[:160]}")
         sub = dict(prog, outputs=[list(r) for r in refs])
+        j_stage("runtime")
         names = [o.name for o in model.graph.output]
         if sorted(names) != sorted(out_names):
             return ("wrong-outputs", f"{tag}: model outputs {names}, requested {out_names}")
@@ -279,10 +286,12 @@ def judge_model(prog, model, out_names, name_of, expected_inputs, check_order, b
         return ("wrong-inputs", f"{tag}: model inputs {in_names}; missing {missing}, not expected {surplus}")
     if check_order and in_names != list(expected_inputs):
         return ("wrong-inputs", f"{tag}: model inputs {in_names} are not in the caller's order {list(expected_inputs)}")
+    j_stage("checker")
     try:
         onnx.checker.check_model(model)
     except Exception as e:  # noqa: BLE001
         return ("checker-rejects-model", f"{tag}: onnx.checker: {str(e)[:200]}")
+    j_stage("runtime")
     st, sess = L.ort_session(model)
     for bi, (b, sp) in enumerate(zip(bindings, specs)):
         if sp is None:
@@ -383,6 +392,7 @@ def run_variant(prog, R, variant, bindings, specs):
         entries.insert(vr.randint(0, len(entries)), (nm, ev, None))
         extra_feeds[nm] = np.zeros(shape, dtype=kind[1])
     tag = "variant " + json.dumps({k: variant[k] for k in variant if k != "seed"}, sort_keys=True)
+    j_stage("build")
     out_names = list(R.outputs)
     # requested output j of prog is named out<j>
     by_pos = [f"out{j}" for j in range(len(prog["outputs"]))]
@@ -602,6 +612,124 @@ SPLIT18 = {
 EXERCISED_SETTERS = ["with_arguments", "with_doc", "with_name", "with_opset"]  # = Props/C01.lean exercisedSetters
 
 
+# ------------------------------------------------------------------ crash isolation (round 9)
+_J = {"fd": None, "case": None}
+ABORT_KEY = {"construct": "construct-aborted", "build": "build-aborted", "checker": "checker-aborted",
+             "runtime": "runtime-aborted", "extract": "checker-aborted"}
+CARRY = ["obligations", "broken_items", "failures", "known_hits", "cov", "samples", "assumptions", "trusted_base",
+         "notes", "evaluations", "_distinct", "rule", "checker_cmds", "exhaustive"]
+
+
+def j_case(doc):
+    """Journal: the case about to be processed (read by the supervising parent if this process dies)."""
+    if _J["case"] is not None:
+        try:
+            with open(_J["case"], "w") as f:
+                json.dump(doc, f)
+        except Exception:  # noqa: BLE001
+            pass
+
+
+_SELFTEST = [0]
+
+
+def j_stage(stage: str):
+    if _J["fd"] is not None and os.environ.get("C01_SELFTEST_SEGV") == stage:  # self-test of the isolation only
+        _SELFTEST[0] += 1
+        if _SELFTEST[0] == 40:
+            import signal
+
+            os.pwrite(_J["fd"], stage.ljust(16).encode(), 0)
+            os.kill(os.getpid(), signal.SIGSEGV)
+    if _J["fd"] is not None:
+        try:
+            os.pwrite(_J["fd"], stage.ljust(16).encode(), 0)
+        except OSError:
+            pass
+
+
+def _in_child(fn, base: str):
+    """Run `fn()` in a forked child with a journal; returns ("ok", pickled result path) | ("died", signal/exit, stage, case)."""
+    import pickle
+    import sys
+
+    case_path, stage_path, out_path = base + ".case.json", base + ".stage", base + ".out.pkl"
+    for p_ in (case_path, out_path):
+        try:
+            os.remove(p_)
+        except OSError:
+            pass
+    with open(stage_path, "wb") as f:
+        f.write(b" " * 16)
+    sys.stdout.flush()
+    sys.stderr.flush()
+    pid = os.fork()
+    if pid == 0:
+        code = 0
+        try:
+            _J["case"] = case_path
+            _J["fd"] = os.open(stage_path, os.O_WRONLY)
+            res = fn()
+            with open(out_path + ".tmp", "wb") as f:
+                pickle.dump(res, f)
+            os.replace(out_path + ".tmp", out_path)
+        except BaseException:  # noqa: BLE001
+            import traceback
+
+            traceback.print_exc()
+            code = 3
+        finally:
+            sys.stdout.flush()
+            sys.stderr.flush()
+            os._exit(code)
+    _, status = os.waitpid(pid, 0)
+    if os.WIFEXITED(status) and os.WEXITSTATUS(status) == 0 and os.path.exists(out_path):
+        with open(out_path, "rb") as f:
+            return ("ok", pickle.load(f))
+    try:
+        stage = open(stage_path, "rb").read().decode().strip() or "?"
+    except OSError:
+        stage = "?"
+    try:
+        case = json.load(open(case_path))
+    except Exception:  # noqa: BLE001
+        case = None
+    how = f"signal {os.WTERMSIG(status)}" if os.WIFSIGNALED(status) else f"exit code {os.WEXITSTATUS(status)}"
+    return ("died", how, stage, case)
+
+
+def supervised(ck: core.Check, search):
+    """Run `search(ck)` in a forked child and carry its verdicts over; if the child dies of a native crash (SIGSEGV /
+    abort inside onnx, protobuf, numpy or spox.build's own checker call), the journalled case becomes a concrete
+    failure `<stage>-aborted` of the property (the program is well-typed and must build and run)."""
+    if os.environ.get("C01_NO_FORK") == "1" or not hasattr(os, "fork"):
+        return search(ck)
+
+    def body():
+        search(ck)
+        try:
+            if ck._driver is not None:
+                ck._driver = None
+        except Exception:  # noqa: BLE001
+            pass
+        return {k: getattr(ck, k) for k in CARRY}
+
+    r = _in_child(body, str(core.WORK / f"c01-{os.getpid()}"))
+    if r[0] == "ok":
+        for k, v in r[1].items():
+            setattr(ck, k, v)
+        return
+    _, how, stage, case = r
+    if how == "exit code 3":
+        raise RuntimeError("C01 search failed inside the supervised child (Python exception, see the traceback above)")
+    key = ABORT_KEY.get(stage, "build-aborted")
+    if case is None:
+        ck.broken("correspondence", "C01 search process died before any case was journalled", f"{how} at stage {stage!r}")
+        return
+    ck.failure(key, f"the process judging this case died ({how}) during stage `{stage}` — a native crash on a well-typed "
+                    f"program / on the model spox.build returned; the search stopped here", case)
+
+
 def run(ck: core.Check):
     entry = None
     try:  # tie G: the inventory of build routes / options (an unreadable source degrades inside)
@@ -638,7 +766,12 @@ def run(ck: core.Check):
         ck.cov["entry_options_inventory"] = {k: [list(x) if isinstance(x, tuple) else x for x in v] for k, v in entry.items()}
     if ck.thorough:
         ck.leanchecker(["SpoxModel.Props.C01", "SpoxModel.Props.C01Build"])
+    # everything that touches the code under test (constructors, spox.build, onnx.checker, onnx.reference, …) runs
+    # in a forked child: a native crash there is a per-case result, never the end of the check
+    supervised(ck, _search)
 
+
+def _search(ck: core.Check):
     rng = ck.rng
     n_random = ck.pick(360, 5000)
     n_styles = ck.pick(3, 4)
@@ -781,6 +914,7 @@ def run(ck: core.Check):
                 if (len(styles) > 1 and style == styles[-1]) or (len(styles) == 1 and rng.random() < 0.34):
                     dims = rng.choice(["symbolic", "unknown"])
             hist_dims[dims] += 1
+            j_case(case_doc(prog, style, rseed, bindings, dims))
             try:
                 res = run_case(prog, style, rseed, bindings, specs, use_reference=(stats["builds"] % 12 == 0), dims=dims)
             except Exception as e:  # noqa: BLE001 - harness trouble on one case never ends the run
@@ -798,6 +932,8 @@ def run(ck: core.Check):
             nontrivial = d >= 1 or any(len(n["ty"]) > 1 or None in n["ins"] for n in prog["nodes"])
             ck.count((skey, style) if nontrivial else None)
             if not res["fail"] and style == styles[0] and (pi % ck.pick(8, 4) == 0 or origin == "attr") and not origin.startswith("deep"):
+                j_case(dict(case_doc(prog, style, rseed, bindings), history=True))
+                j_stage("construct")
                 try:
                     hf = run_history(prog, style, rseed, bindings)
                 except Exception as e:  # noqa: BLE001
@@ -867,6 +1003,8 @@ def run(ck: core.Check):
                     if not ck.thorough and pi % 2 and origin.split(":")[0] in ("skeleton", "skeleton2", "skeleton3", "skeleton4"):
                         variants = []  # (quick budget: these families read every input at depth <= 1; every 2nd program)
                 if pi % 8 == 0:
+                    j_case(dict(case_doc(prog, style, rseed, bindings, dims), non_argument_probe=True))
+                    j_stage("build")
                     try:
                         nf = non_argument_probe(prog, R)
                         stats["non_argument_input_probes"] += 1
@@ -879,6 +1017,7 @@ def run(ck: core.Check):
                         ck.failure(nf[0], f"{nf[1]} [{origin}, style {style}]", doc)
                         stats["oracle_failures"] += 1
                 for variant in variants:
+                    j_case(dict(case_doc(prog, style, rseed, bindings, dims), variant=variant))
                     try:
                         vres = run_variant(prog, R, variant, bindings, specs)
                     except Exception as e:  # noqa: BLE001
@@ -1108,6 +1247,8 @@ def run(ck: core.Check):
         from harness import lib_containers as LC
 
         for pd in LC.all_probes(random.Random(rng.getrandbits(48))):
+            j_case({"container_probe": pd})
+            j_stage("build")
             try:
                 pr = LC.run_probe(pd["probe"], pd["kind"], pd["opset"], pd["seed"])
             except Exception as e:  # noqa: BLE001
@@ -1213,6 +1354,19 @@ def run(ck: core.Check):
 
 
 def replay(ck: core.Check, doc) -> bool:
+    """In a forked child: a replay that dies of a native crash still fails."""
+    if os.environ.get("C01_NO_FORK") == "1" or not hasattr(os, "fork"):
+        return _replay(ck, doc)
+    r = _in_child(lambda: _replay(ck, doc), str(core.WORK / f"c01-replay-{os.getpid()}"))
+    if r[0] == "ok":
+        return bool(r[1])
+    if r[1] == "exit code 3":
+        raise RuntimeError("C01 replay failed inside the child process (see the traceback above)")
+    print(f"{ABORT_KEY.get(r[2], 'build-aborted')}: the process judging this input died ({r[1]}) during stage `{r[2]}`")
+    return True
+
+
+def _replay(ck: core.Check, doc) -> bool:
     case = doc["case"]
     if case.get("container_probe"):
         from harness import lib_containers as LC
